@@ -10,11 +10,12 @@ import glob
 for l in (x for fn in sorted(glob.glob(os.path.join(mutate.ROOT, "mutation", "results*.jsonl"))) for x in open(fn)):
     r = json.loads(l); rows[r["id"]] = r
 repo = "/tmp/priv/repo"
-mutate.pin()
+PR = '/tmp/mutone-pristine'
+mutate.pin(PR)
 for mid in sys.argv[2:]:
     m = rows[mid]
-    subprocess.run(["rsync", "-a", "--delete", mutate.PRISTINE + "/", repo + "/"], check=True)
-    src = open(mutate.PRISTINE + "/" + m["file"], "rb").read()
+    subprocess.run(["rsync", "-a", "--delete", PR + "/", repo + "/"], check=True)
+    src = open(PR + "/" + m["file"], "rb").read()
     if src[m["start"]:m["end"]].decode() != m["old"]:
         print(mid, "STALE"); continue
     open(os.path.join(repo, m["file"]), "wb").write(src[:m["start"]] + m["new"].encode() + src[m["end"]:])
